@@ -17,7 +17,7 @@
     reflexivity, transitivity and the greatest-lower-bound law. *)
 From Coq Require Import NArith List Bool Arith Sorted Permutation.
 From OBI.C15.Gen Require Import Tables.
-From OBI.C15 Require Import Model Proofs.
+From OBI.C15 Require Import Model Proofs ProofsR3.
 Import ListNotations.
 
 (** ** the 4-mer model *)
@@ -353,6 +353,110 @@ Theorem C15_iupac_refuted : let compat := fun a b : N => (a =? 110)%N || (b =? 1
      <= common4 (al_left wamb) (al_right wamb)).
 Proof. exact iupac_refuted. Qed.
 
+(** ** [round 3] database loaders and MatchDistanceIndex *)
+(** obitag.CLIAssignTaxonomy (repaired): the loop `references[j] = seq; refcounts[j] = Count4Mer(seq); if the taxid is known
+    { taxa[j] = taxon; j++ }` over the array it is compacting, followed by the cut at j, leaves EXACTLY the references of known
+    taxid in their order, each with ITS 4-mer table, and a taxon set whose keys are 0 .. |kept|-1 bound to the taxon of the
+    reference of the same rank, no nil entry ([taxa_ok]: what IndexSequence needs: it ranges over the whole map). Any type of
+    reference, any table function, any taxonomy lookup. *)
+Theorem C15_loader_obitag_compacts : forall (A C T : Type) (cnt : A -> C) (tax : A -> option T) (d : A) (refs : list A),
+  let r := filter (known tax) refs in
+  tag_load cnt tax d refs = (r, map (sc cnt) r, snd (tag_load cnt tax d refs)) /\
+  (forall k, mget k (snd (tag_load cnt tax d refs)) = if k <? length r then Some (tax (nth k r d)) else None) /\
+  taxa_ok (length r) (snd (tag_load cnt tax d refs)) = true.
+Proof. exact (@tag_load_spec). Qed.
+(** obirefidx.IndexReferenceDB: `if known { taxa[j] = taxon; references[j] = references[i]; j++ }`, tables computed afterwards *)
+Theorem C15_loader_obirefidx_compacts : forall (A C T : Type) (cnt : A -> C) (tax : A -> option T) (d : A) (refs : list A),
+  let r := filter (known tax) refs in
+  refidx_load cnt tax d refs = (r, map (sc cnt) r, snd (refidx_load cnt tax d refs)) /\
+  (forall k, mget k (snd (refidx_load cnt tax d refs)) = if k <? length r then Some (tax (nth k r d)) else None) /\
+  taxa_ok (length r) (snd (refidx_load cnt tax d refs)) = true.
+Proof. exact (@refidx_load_spec). Qed.
+(** the loader of obitag as it was (`taxa[j], err = taxo.Taxon(..)`): database 1, 2, 9 with 9 unknown: same references and
+    tables, but the taxon set keeps key 2 bound to a nil taxon (IndexSequence then calls LCA on it: panic — exhibited on the
+    real command and on CLIAssignTaxonomy in process, repaired); with the unknown reference anywhere but last, no difference *)
+Theorem C15_loader_obitag_orig_refuted :
+  tag_load_orig (fun x : nat => x) wtax 0 [1; 2; 9] = ([1; 2], [Some 1; Some 2], [(2, None); (1, Some 2); (0, Some 1)]) /\
+  taxa_ok 2 (snd (tag_load_orig (fun x : nat => x) wtax 0 [1; 2; 9])) = false /\
+  tag_load (fun x : nat => x) wtax 0 [1; 2; 9] = ([1; 2], [Some 1; Some 2], [(1, Some 2); (0, Some 1)]) /\
+  tag_load_orig (fun x : nat => x) wtax 0 [1; 9; 2] = tag_load (fun x : nat => x) wtax 0 [1; 9; 2].
+Proof. exact tag_load_orig_witness. Qed.
+
+(** ... in general: whatever the database refs ++ [x], the unrepaired loop keeps the same references and tables as the repaired one,
+    binds the keys below |kept| to the right taxa, and binds key |kept| to a NIL taxon exactly when the last reference x is
+    discarded — the only difference, and it makes the taxon set unusable by IndexSequence ([taxa_ok] false) *)
+Theorem C15_loader_obitag_orig_nil_entry : forall (A C T : Type) (cnt : A -> C) (tax : A -> option T) (d : A) (refs : list A) (x : A),
+  let db := refs ++ [x] in
+  let r := filter (known tax) db in
+  tag_load_orig cnt tax d db = (r, map (sc cnt) r, snd (tag_load_orig cnt tax d db)) /\
+  (forall k, k < length r -> mget k (snd (tag_load_orig cnt tax d db)) = Some (tax (nth k r d))) /\
+  mget (length r) (snd (tag_load_orig cnt tax d db)) = (if known tax x then None else Some None) /\
+  (forall k, length r < k -> mget k (snd (tag_load_orig cnt tax d db)) = None) /\
+  (known tax x = false -> taxa_ok (length r) (snd (tag_load_orig cnt tax d db)) = false).
+Proof. exact (@tag_load_orig_spec). Qed.
+
+(** the worker chunks of IndexReferenceDB, IndexFamilyDB and MakeIndexingSliceWorker ([i, min(i+10, n)) for i = 0, 10, ...) cover
+    every reference exactly once, in order: no reference is left without an index, none is indexed twice *)
+Theorem C15_index_chunks_cover : forall n,
+  flat_map chunk_indices (limits n) = seq 0 n /\ (forall a b, In (a, b) (limits n) -> a < b /\ b <= n /\ b - a <= 10).
+Proof. intro n. split; [apply limits_cover | apply limits_bounds]. Qed.
+(** obitag2, exact match (a reference has the bytes of the query): the taxon assigned is the lowest common ancestor of the taxa of
+    ALL the byte-identical references — for acgt sequences these are the references at distance 0, i.e. all the best matches; and
+    the rule always answers when such a reference exists. Tied to the real command by [exact_mismatches] on every run. *)
+Theorem C15_obitag2_exact_match_is_lca :
+  forall (anc : nat -> nat -> Prop) (lca : nat -> nat -> nat),
+  (forall a, anc a a) -> (forall a b c, anc a b -> anc b c -> anc a c) ->
+  (forall x a b, anc x (lca a b) <-> anc x a /\ anc x b) ->
+  forall q refs tax,
+    (forall t, exact_taxon (fun a b => Some (lca a b)) q refs tax = Some t ->
+       is_lca_of anc t (map snd (filter (fun p => list_eqb N.eqb q (fst p)) (combine refs tax)))) /\
+    ((exists p, In p (combine refs tax) /\ list_eqb N.eqb q (fst p) = true) ->
+       exists t, exact_taxon (fun a b => Some (lca a b)) q refs tax = Some t).
+Proof. intros anc lca R Tr G q refs tax. split; [intro t; now apply exact_taxon_is_lca | apply exact_taxon_total]. Qed.
+
+(** MatchDistanceIndex (never called by the LCS mode; the geometric mode calls it): the entry of the smallest recorded
+    distance >= the observed one, taxid 1 when every recorded distance is smaller *)
+Theorem C15_match_distance_index_spec : forall idx e,
+  match mdi_pick idx e None with
+  | Some (k, t) => match_distance_index idx e = t /\ In (k, t) idx /\ e <= k /\ (forall k' t', In (k', t') idx -> e <= k' -> k <= k')
+  | None => match_distance_index idx e = 1 /\ forall k' t', In (k', t') idx -> k' < e
+  end.
+Proof. exact match_distance_index_spec. Qed.
+(** on an index built by IndexSequence its answer is a common ancestor of the taxa of ALL references within the observed
+    distance: used in place of Identify's lookup it could never give an over-specific taxon ... *)
+Theorem C15_match_distance_index_sound :
+  forall (anc : nat -> nat -> Prop) (lca : nat -> nat -> nat),
+  (forall a, anc a a) -> (forall a b c, anc a b -> anc b c -> anc a c) ->
+  (forall x a b, anc x (lca a b) <-> anc x a /\ anc x b) -> (forall x, anc 1 x) ->
+  forall slen tseq pseq rs,
+    path_chain anc pseq -> (forall r, In r rs -> In (lca tseq (r_tax r)) pseq) ->
+    (exists r, In r rs /\ r_tax r = tseq /\ r_d r = 0) ->
+    iby_decreasing_cw (icands lca tseq rs) -> iqgram_ok slen (icands lca tseq rs) ->
+    forall e r, In r rs -> r_d r <= e ->
+      anc (match_distance_index (index_ref thr_fixed slen pseq (icands lca tseq rs)) e) (r_tax r).
+Proof. exact match_distance_index_sound. Qed.
+(** ... it is an ancestor-or-self of the answer of Identify's lookup (largest recorded distance <= observed), and can be
+    strictly less specific: index {2 -> 1, 0 -> 4}, observed distance 1: Identify answers 4, MatchDistanceIndex the root *)
+Theorem C15_match_distance_index_coarser :
+  forall (anc : nat -> nat -> Prop) (lca : nat -> nat -> nat),
+  (forall a, anc a a) -> (forall a b c, anc a b -> anc b c -> anc a c) ->
+  (forall x a b, anc x (lca a b) <-> anc x a /\ anc x b) -> (forall x, anc 1 x) ->
+  forall slen tseq pseq rs,
+    path_chain anc pseq -> (forall r, In r rs -> In (lca tseq (r_tax r)) pseq) ->
+    (exists r, In r rs /\ r_tax r = tseq /\ r_d r = 0) ->
+    iby_decreasing_cw (icands lca tseq rs) -> iqgram_ok slen (icands lca tseq rs) ->
+    forall e k a, e < slen ->
+      lookup (index_ref thr_fixed slen pseq (icands lca tseq rs)) e None = Some (k, a) ->
+      anc (match_distance_index (index_ref thr_fixed slen pseq (icands lca tseq rs)) e) a.
+Proof. exact match_distance_index_coarser. Qed.
+Theorem C15_match_distance_index_strictly_coarser_witness :
+  lookup [(2, 1); (0, 4)] 1 None = Some (0, 4) /\ match_distance_index [(2, 1); (0, 4)] 1 = 1 /\
+  mdi_table [(2, 1); (0, 4)] = [4; 1; 1; 1; 1].
+Proof. exact mdi_strict_example. Qed.
+(** beyond the largest recorded distance the answer is the root; the table the correspondence compares has max key + 3 rows *)
+Theorem C15_match_distance_index_beyond : forall idx e, max_key idx < e -> match_distance_index idx e = 1.
+Proof. exact match_distance_index_beyond. Qed.
+
 (** ** non-vacuity: the hypotheses are satisfiable *)
 Example C15_search_nonvacuous : wcs <> [] /\ by_decreasing_cw wcs /\ qgram_ok (length wq) wcs.
 Proof. split; [discriminate|]. destruct search_orig_refuted as [_ [_ [_ [_ [S [Q _]]]]]]. now split. Qed.
@@ -370,6 +474,14 @@ Proof. exact star_tree_ok. Qed.
 Example C15_index_nonvacuous : iby_decreasing_cw wics /\ iqgram_ok 5 wics /\
   In (0, 1) (index_ref thr_fixed 5 [1; 3; 4] wics).
 Proof. destruct index_orig_refuted as [S [Q [_ E]]]. split; [exact S|]. split; [exact Q|]. rewrite E. now left. Qed.
+
+Example C15_loader_nonvacuous : filter (known wtax) [1; 9; 2; 9] = [1; 2] /\ fst (fst (tag_load (fun x : nat => x) wtax 0 [1; 9; 2; 9])) = [1; 2].
+Proof. vm_compute. split; reflexivity. Qed.
+
+Example C15_exact_match_nonvacuous :
+  exact_taxon (lca_exec [(1, 1); (2, 1); (3, 2); (4, 2)]) [97; 99]%N [[97; 99]; [97; 97]; [97; 99]]%N [3; 4; 4] = Some 2 /\
+  limits 23 = [(0, 10); (10, 20); (20, 23)].
+Proof. vm_compute. split; reflexivity. Qed.
 
 Print Assumptions C15_kmers4_length.
 Print Assumptions C15_encode4mer_is_windows.
@@ -409,3 +521,14 @@ Print Assumptions C15_search2_exact_lossless_iff_no_closest_beyond_rank_1000.
 Print Assumptions C15_search2_byte_equality_fewer_ties.
 Print Assumptions C15_lookup_beyond_length_only_at_identity_half.
 Print Assumptions C15_table_shared_count.
+Print Assumptions C15_loader_obitag_compacts.
+Print Assumptions C15_loader_obirefidx_compacts.
+Print Assumptions C15_loader_obitag_orig_refuted.
+Print Assumptions C15_match_distance_index_spec.
+Print Assumptions C15_match_distance_index_sound.
+Print Assumptions C15_match_distance_index_coarser.
+Print Assumptions C15_match_distance_index_strictly_coarser_witness.
+Print Assumptions C15_match_distance_index_beyond.
+Print Assumptions C15_loader_obitag_orig_nil_entry.
+Print Assumptions C15_index_chunks_cover.
+Print Assumptions C15_obitag2_exact_match_is_lca.
